@@ -296,6 +296,10 @@ class Poll(BasePoller):
             self._read_ctrl()
             return
 
+        if not isinstance(fd, int) and fd.fileno() != fileno:
+            # closed without discard() and the number is in use again: not ours
+            event = select.POLLNVAL
+
         if event & self._disconnected_flag and not (event & select.POLLIN):
             self.fire(_disconnect(fd), self.getTarget(fd))
             self._poller.unregister(fileno)
